@@ -731,6 +731,28 @@ fn hand_families() -> Vec<(Vec<Decl>, Ty)> {
 			],
 			Ty::Named(1, vec![]),
 		),
+		// two records with the same unqualified name - one in a namespace, the other in the null
+		// namespace - as branches of one union enum, in both orders; every variant carries the
+		// fullname of its branch
+		(
+			vec![
+				Decl { ident: "T0".into(), name_override: Some("Point".into()), ns: Some("geo".into()), nparams: 0, body: Body::Record(vec![f("x", Ty::I32), f("y", Ty::I32)]) },
+				Decl { ident: "T1".into(), name_override: Some("Point".into()), ns: Some("".into()), nparams: 0, body: Body::Record(vec![f("x", Ty::I32), f("y", Ty::I32)]) },
+				Decl {
+					ident: "T2".into(),
+					name_override: None,
+					ns: None,
+					nparams: 0,
+					body: Body::Union(vec![
+						("V0".into(), "geo.Point".into(), Some(f("0", Ty::Named(0, vec![])))),
+						("V1".into(), "Point".into(), Some(f("0", Ty::Named(1, vec![])))),
+						("Nothing".into(), "Null".into(), None),
+					]),
+				},
+				rec("T3", 0, None, vec![f("f0", Ty::Named(2, vec![])), f("f1", Ty::Vec(Box::new(Ty::Named(2, vec![])))), f("f2", Ty::Named(2, vec![]))]),
+			],
+			Ty::Named(3, vec![]),
+		),
 		// a unit-only enum one of whose variants is called `Null`, under `Option` (record field, list
 		// item, map value): `Some(T0::Null)` is the enum's symbol, not the union's null branch
 		(
